@@ -68,6 +68,17 @@ def plan(tier, seed):
                 "profile": {"x64": x64},
                 "part": method + ("_f64" if x64 else "_f32"),
                 "weight": len(spectra(n, values))})
+  # Newton with an iteration budget below what the matrix needs: whatever
+  # iterate comes back, the figure reported with it must be its own residual
+  for n in ([3, 5] if tier == "quick" else [2, 3, 5, 6]):
+    for iters in ([4, 8, 12] if tier == "quick" else [2, 4, 6, 8, 10, 12, 16]):
+      for x64 in [True]:
+        tasks.append({
+            "name": "newton/n%d/k0/e1e-06r/f64/iters%d" % (n, iters),
+            "n": n, "pad": 0, "eps": 1e-6, "rel": True, "method": "newton",
+            "values": values, "seed": seed, "x64": x64, "num_iters": iters,
+            "profile": {"x64": x64}, "part": "newton_budget",
+            "weight": len(spectra(n, values))})
   # all-padding matrices (padding_start = 0)
   for method in ["newton", "eigh"]:
     tasks.append({"name": "%s/allpad" % method, "kind": "allpad",
@@ -89,7 +100,8 @@ def plan(tier, seed):
       "tasks": tasks,
       "rule": "every sorted spectrum multiset over %s with top 1 x bases "
               "{I,H,G(seed)} x scales {1e-6,1,1e6} x n x padding x p in 1..8 "
-              "x ridge setting x method x dtype; state = one (matrix, p, "
+              "x ridge setting x method x dtype (+ Newton with iteration budgets "
+              "below convergence); state = one (matrix, p, "
               "config) call; non-trivial = n >= 2" % values,
       "bounds": {"n": ns, "paddings": pads, "p": list(range(1, 9)),
                  "ridge": epss},
@@ -166,6 +178,8 @@ def run_task(task):
             eigh=(method == "eigh"))
   if method == "lobpcg":
     kw["lobpcg_topk_precondition"] = 1
+  if task.get("num_iters"):
+    kw["num_iters"] = task["num_iters"]
 
   def one(a, p, ps):
     return ds.matrix_inverse_pth_root(a, p, padding_start=ps, **kw)
